@@ -1,5 +1,6 @@
 //! Conformance harness: replays TLC-generated behaviours into the real library and records
 //! ndjson traces that TLC validates against the specifications.
+mod act;
 mod c13;
 mod util;
 
@@ -13,6 +14,7 @@ fn main() {
     let (inp, outp) = (args[2].as_str(), args[3].as_str());
     match args[1].as_str() {
         "c13" => util::run_cases(inp, outp, c13::run),
+        "act" => util::run_cases(inp, outp, act::run),
         other => {
             eprintln!("harness: unknown driver {}", other);
             std::process::exit(2);
